@@ -865,7 +865,8 @@ impl ExecutionEngine {
                             values
                                 .iter()
                                 .filter_map(|value| value.parse::<f64>().ok())
-                                .sum::<f64>()
+                                // not `.sum()`: an empty f64 sum is -0.0, spelled "-0"
+                                .fold(0.0_f64, |sum, value| sum + value)
                                 .to_string(),
                         ),
                         "AVG" => {
